@@ -220,6 +220,46 @@ def rule_detached_counterparts(ctx):
         ctx.check(ok, fq, f"{what} has its owner invalidated", f"nothing looks for {what}: the owner is recycled and skipped later, the tree/pattern is attached again next to the conflicting declaration, and the plan that a build from scratch rejects is accepted", "detached lookup + after_lost_product", where=ctx.where_of(ctx.prog.func(fq)))
 
 
+def rule_detached_counterparts_more(ctx):
+    """R-C08-7: the other declaration sites that can collide with something detached."""
+    rt = ctx.prog.func("workflow.Workflow.register_static_tree")
+    calls = [c for c in calls_in(rt.node) if callee_name(c) == "_invalidate_detached_tree_creators"]
+    ok = any(any(k.arg == "nested" and ast.unparse(k.value) == "True" for k in c.keywords) for c in calls)
+    ctx.check(ok, rt.fq, "a new static tree invalidates the owners of detached trees above and below it", "a detached tree that encloses, or lies inside, the new tree comes back unchecked when its step is recycled and skipped: two nested static trees end up attached, which a build from scratch rejects in either order", "_invalidate_detached_tree_creators(..., nested=True)", where=ctx.where_of(rt))
+    hp = ctx.prog.func("workflow.Workflow._invalidate_detached_tree_creators")
+    texts = [re.sub(r"\s+", " ", st.text) for st in ctx.sql.stmts_in(hp.fq)]
+    up = any("node . label = substr" in t and re.search(r"(?<!NOT )node \. detached", t) for t in texts)
+    down = any("substr ( node . label" in t and re.search(r"(?<!NOT )node \. detached", t) for t in texts)
+    ctx.check(up and down, hp.fq, "the helper looks for detached trees over the path and, for a new tree, below it", f"directions found: enclosing={up} enclosed={down}", "both directions")
+    rs = ctx.prog.func("workflow.Workflow._resolve_supply_file")
+    n_und = 0
+    for tr, st in flow.paths_of(rs):
+        creates = [k for k, e in enumerate(tr) if e[0] == "call" and e[1] == "self.create" and "None" in [ast.unparse(a) for a in e[2].args[:2]]]
+        if not creates:
+            continue
+        n_und += 1
+        inv = any(e[0] == "call" and e[1] == "self._invalidate_detached_tree_creators" for e in tr[creates[0]:])
+        ctx.check(inv, rs.fq, "an undeclared input under a detached static tree invalidates the tree's owner", "the tree's step is recycled and skipped later, so the revived tree never adopts the file: the consumer stays blocked on an UNDECLARED input for ever, while a build from scratch succeeds", "invalidation after create(File, None, ...)", where=ctx.where_of(rs, tr[creates[0]][2]))
+    if n_und == 0:
+        raise AnalysisError("_resolve_supply_file no longer creates undeclared nodes")
+    n_vol = 0
+    for tr, st in flow.paths_of(rs):
+        tests = [(e[1], e[2]) for e in tr if e[0] == "test"]
+        if ("state == FileState.VOLATILE", True) not in tests:
+            continue
+        n_vol += 1
+        det = dict((t, v) for t, v in tests if t in ("not detached", "detached"))
+        attached = det.get("not detached") is True or det.get("detached") is False
+        rejected = any(e[0] == "call" and e[1] == "_volatile_input_message" for e in tr)
+        if attached:
+            ctx.check(st == "raise" and rejected, rs.fq, "an attached volatile output cannot be an input", "accepted", "raises")
+        else:
+            inv = any(e[0] == "call" and e[1].endswith("after_lost_product") for e in tr) or ("isinstance(old_creator, Step)", False) in tests
+            ctx.check(not rejected and inv, rs.fq, "a detached VOLATILE memory does not reject an input; its creator is invalidated instead", "the VOLATILE state of a detached node (a memory of a dropped step) rejects a valid input for ever, or the volatile producer comes back unchecked next to a consumer", "no raise + after_lost_product")
+    if n_vol == 0:
+        raise AnalysisError("_resolve_supply_file: VOLATILE branch not found")
+
+
 def rule_lost_claim_is_rechecked(ctx):
     """R-C08-5: when a new declaration takes a path from a detached owner, every plan that would declare the old owner
     again has to run again, so that the conflict is reported in that order too."""
@@ -233,12 +273,16 @@ RULES = [
     Rule("R-C08-1", "the claim is a database fact", rule_claim_is_db_fact, min_instances=5),
     Rule("R-C08-2", "every conflict relation is guarded in both directions, before the mutation", rule_guard_pairs, min_instances=20),
     Rule("R-C08-3", "declare only after the claim check", rule_declare_after_check, min_instances=9),
+    Rule("R-C08-7", "nested trees, undeclared inputs and volatile memories against detached declarations", rule_detached_counterparts_more, min_instances=3),
     Rule("R-C08-6", "declarations that conflict with a detached tree or pattern invalidate its owner", rule_detached_counterparts, min_instances=2),
     Rule("R-C08-5", "a claim taken from a detached owner is re-examined when the owner's plans run again", rule_lost_claim_is_rechecked, min_instances=4),
     Rule("R-C08-4", "idempotent redeclaration", rule_idempotent, min_instances=6),
 ]
 
 MUTANTS = [
+    Mutant("new-tree-ignores-detached-trees", "workflow.py", in_function("Workflow.register_static_tree", replace_once("        self._invalidate_detached_tree_creators(creator, path, nested=True)\n", "")), ("R-C08-7",)),
+    Mutant("undeclared-under-detached-tree", "workflow.py", in_function("Workflow._resolve_supply_file", replace_once("            self._invalidate_detached_tree_creators(step, path)\n", "")), ("R-C08-7",)),
+    Mutant("volatile-memory-rejects", "workflow.py", in_function("Workflow._resolve_supply_file", replace_once("                if not detached:\n                    raise GraphError(_volatile_input_message(path))\n", "                raise GraphError(_volatile_input_message(path))\n")), ("R-C08-7",)),
     Mutant("detached-tree-not-invalidated", "workflow.py", in_function("Workflow._declare_file", replace_once("            self._invalidate_detached_tree_creators(creator, path)\n", "")), ("R-C08-6",)),
     Mutant("detached-pattern-not-invalidated", "workflow.py", in_function("Workflow._raise_if_glob_match", replace_once("                Step(self, i, label).after_lost_product()\n", "                pass\n")), ("R-C08-6",)),
     Mutant("lost-product-one-level", "step.py", in_function("Step.after_lost_product", replace_once("creator.after_lost_product()", "creator.delete_hash()")), ("R-C08-5",)),
